@@ -145,7 +145,8 @@ def run(ck):
         backend = ck.rng.choice(["numba", "numba", "numpy", "cuda"])
         which = ck.rng.choice(["full", "full", "single"])
         with Recorder() as rec:
-            res, an, info = attrs.make_result(ck.rng, which=which, backend=backend, kind=ck.rng.choice(["independent", "coupled", "walk"]))
+            res, an, info = attrs.make_result(ck.rng, which=which, backend=backend, kind=ck.rng.choice(["independent", "coupled", "walk"]),
+                                              cross=(True if i % 5 == 1 else None), layout=("Nx2" if i % 5 == 1 else None))
         key = "%s/%s/order%d/%s" % (which, backend, info["order"], "cross" if info["cross"] else "auto")
         dist[key] = dist.get(key, 0) + 1
         if backend == "cuda" and len(res._data["f"]) > 40:
